@@ -17,4 +17,55 @@ theorem add_n_val (u v : List Nat) (hu : Limbs u) (hv : Limbs v) (hl : u.length 
 -- non-vacuity: a concrete carry chain
 example : add_n [B - 1, B - 1] [1, 0] = ([0, 0], 1) := by decide
 
+/-- mpn_sub_n: for all lengths and limb contents, result + v = u + B^n·borrow, borrow ∈ {0,1},
+    result limbs proper, result has n limbs. -/
+theorem sub_n_val (u v : List Nat) (hu : Limbs u) (hv : Limbs v) (hl : u.length = v.length) :
+    val (sub_n u v).1 + val v = val u + B ^ u.length * (sub_n u v).2 ∧
+    (sub_n u v).2 ≤ 1 ∧ Limbs (sub_n u v).1 ∧ (sub_n u v).1.length = u.length := by
+  simpa [sub_n] using subNC_val u v 0 hu hv hl (by omega)
+
+-- non-vacuity: a borrow chain through a zero limb
+example : sub_n [0, 0] [1, 0] = ([B - 1, B - 1], 1) := by decide
+
+/-- mpn_add_1 (n ≥ 1, v a limb): result + B^n·carry = u + v, carry ∈ {0,1}; covers both the
+    propagate path and the early-exit "copy the rest" path of `__GMPN_AORS_1`. -/
+theorem add_1_val (u : List Nat) (v : Nat) (hu : Limbs u) (hn : 1 ≤ u.length) (hv : v < B) :
+    val (add_1 u v).1 + B ^ u.length * (add_1 u v).2 = val u + v ∧
+    (add_1 u v).2 ≤ 1 ∧ Limbs (add_1 u v).1 ∧ (add_1 u v).1.length = u.length := by
+  match u, hn with
+  | x :: xs, _ => exact add_1_val' x xs v hu hv
+
+-- non-vacuity: carry stops at limb 1, limb 2 is copied
+example : add_1 [B - 1, 5, 7] 3 = ([2, 6, 7], 0) := by decide
+example : add_1 [B - 1, B - 1] 1 = ([0, 0], 1) := by decide
+
+/-- mpn_sub_1 (n ≥ 1, v a limb): result + v = u + B^n·borrow, borrow ∈ {0,1}; both paths. -/
+theorem sub_1_val (u : List Nat) (v : Nat) (hu : Limbs u) (hn : 1 ≤ u.length) (hv : v < B) :
+    val (sub_1 u v).1 + v = val u + B ^ u.length * (sub_1 u v).2 ∧
+    (sub_1 u v).2 ≤ 1 ∧ Limbs (sub_1 u v).1 ∧ (sub_1 u v).1.length = u.length := by
+  match u, hn with
+  | x :: xs, _ => exact sub_1_val' x xs v hu hv
+
+example : sub_1 [1, 0, 7] 3 = ([B - 2, B - 1, 6], 0) := by decide
+example : sub_1 [0, 0] 1 = ([B - 1, B - 1], 1) := by decide
+
+/-- mpn_add (xsize ≥ ysize ≥ 0): result + B^xsize·carry = x + y, carry ∈ {0,1}, xsize limbs. -/
+theorem add_val (x y : List Nat) (hx : Limbs x) (hy : Limbs y) (hl : y.length ≤ x.length) :
+    val (add x y).1 + B ^ x.length * (add x y).2 = val x + val y ∧
+    (add x y).2 ≤ 1 ∧ Limbs (add x y).1 ∧ (add x y).1.length = x.length :=
+  add_val' x y hx hy hl
+
+example : add [B - 1, B - 1, 4] [1] = ([0, 0, 5], 0) := by decide
+example : add [B - 1, B - 1] [1] = ([0, 0], 1) := by decide
+example : add [3, 4] [] = ([3, 4], 0) := by decide
+
+/-- mpn_sub (xsize ≥ ysize ≥ 0): result + y = x + B^xsize·borrow, borrow ∈ {0,1}, xsize limbs. -/
+theorem sub_val (x y : List Nat) (hx : Limbs x) (hy : Limbs y) (hl : y.length ≤ x.length) :
+    val (sub x y).1 + val y = val x + B ^ x.length * (sub x y).2 ∧
+    (sub x y).2 ≤ 1 ∧ Limbs (sub x y).1 ∧ (sub x y).1.length = x.length :=
+  sub_val' x y hx hy hl
+
+example : sub [0, 0, 4] [1] = ([B - 1, B - 1, 3], 0) := by decide
+example : sub [0, 0] [1] = ([B - 1, B - 1], 1) := by decide
+
 end Mpir
